@@ -108,7 +108,30 @@ CHECKS["C19"] = dict(
    ref="3 C19", engine="I")
 NOT_BUILT = {}
 
+# additions made after the first build (seeded waves 3-5); appended to `text`
+ADDENDA = {
+ "C02": " Also: the same search from the fully loaded universes (`@full`, depth 3 quick / 4 thorough), and lines that are refused only after their first references were resolved, offered in every state in which they are refused.",
+ "C03": " Seed documents with two paths over one link in opposite directions and asymmetric CIGARs, link written in either form.",
+ "C04": " The `$` rule with the judged segment on either side of the edge and the other side with / without a sequence.",
+ "C05": " Also from the fully loaded universes (`@full`), with the operations `nameit` (give an unnamed line an identifier) and delete of the ID tag of a link / containment.",
+ "C06": " Path cases also with the path arriving before its links and together with the path walking the same links backwards.",
+ "C07": " Two-step API programs: a refused call (caught), then ordinary calls on the same objects.",
+ "C08": " Also from the fully loaded universes (`@full`); failure alphabet includes lines refused after their first side was resolved (second side names a non-segment; first side known only from a group).",
+ "C09": " Also from the fully loaded universes; a path over an ID-tagged link (placeholder link replaced by a link whose ID may be in use); delete of the ID tag.",
+ "C11": " Post-operations `refused` (line refused after its first side was resolved) and `in-out` (line over placeholders added and removed).",
+ "C12": " Family twopaths: two paths walking one link in opposite directions, link written in either form, segments bare or with sequence/tags, all arrival orders, complement of the stored link taken after every arrival.",
+ "C13": " Entry points `clones` (cloned Line objects) and `carry` (refused lines dropped, the caller carries on: what the Gfa holds must be a document of the version it reports).",
+ "C14": " The families again at validation levels 0/2/3; GFA2 twins with the sides of the E lines exchanged and with identical parallel E lines.",
+ "C15": " Links / containments with ID tags; opposite-direction parallel links with I/D overlaps; the graph is judged as built.",
+ "C16": " Also from the fully loaded graph-shaped universes (`@full`); refused operations are judged; a query that raises on a well-formed document is a violation.",
+ "C17": " Families Uanon (unnamed / parallel / hairpin edges in induced sets) and Urename (groups queried and extended after a rename, differential against a fresh parse of the renamed text).",
+ "C20": " Tag histories (set, delete, set with another type; differential against a fresh line) and `header.add` without datatype on a declared tag.",
+}
+
+
 def main():
+  for k, v in ADDENDA.items():
+    CHECKS[k]["text"] = CHECKS[k]["text"].rstrip() + v
   props = [json.loads(l) for l in open(os.path.join(V, "properties.jsonl"))]
   checks, na = [], []
   for p in props:
@@ -142,7 +165,7 @@ def main():
        "kind_free_text": "explicit-state breadth-first search over operation histories by replay on fresh Gfa objects, canonical-observation deduplication"},
       {"name": "S", "path": "gfamc/schedules.py", "serves_properties": ["C03","C13","C17"],
        "kind_free_text": "all arrival orders (n!) of the lines of each enumerated document"},
-      {"name": "I", "path": "gfamc/enum.py", "serves_properties": ["C01","C04","C06","C07","C11","C12","C14","C15","C18","C19","C20"],
+      {"name": "I", "path": "gfamc/enumstr.py", "serves_properties": ["C01","C04","C06","C07","C11","C12","C14","C15","C18","C19","C20"],
        "kind_free_text": "bounded-exhaustive enumeration of input shapes compared with an independent reference model (gfamc/ref)"},
     ],
     "checks": checks,
